@@ -727,9 +727,14 @@ package actor
 // whose forward is at log position k; together they are a bijection between
 // the non-nil subscribers and the log entries the loop appends.
 
+// Every Log method of the package is verified against this contract
+// (`implementations`): eventStream.Receive calls Log before it forwards the
+// event, so a Log that panics loses the event for every subscriber.
 //@ func (EventLogger).Log()
 //@   abstract
+//@   props C09 C12
 //@   pure
+//@   implementations
 
 //@ pred forwardedAt(e, pid, msg, sender, k) := (e.address == pid.Address ==> sentLocal(e, pid, msg, sender, k)) &&
 //@      (e.address != pid.Address && isnil(e.remote) ==> log[k] == Broadcast(e, EngineRemoteMissingEvent{Target: pid, Sender: sender, Message: msg})) &&
